@@ -520,11 +520,12 @@ structure Recv where
   result : Outcome Packet
   deriving DecidableEq, Repr
 
-/-- `recv_packet::<P>(size)` given the bytes available on the stream (at least `size` of them when the
-gates pass; a short stream is the transport's business, see M-sess) -/
+/-- `recv_packet::<P>(size)` given the bytes available on the stream (at least `size` of them; a short
+stream is the transport's business, see M-sess).  A fixed-size type announced with another size is
+rejected after its payload has been drained (so that the stream stays aligned on the next header). -/
 def recvPacket (k : Kind) (size : Nat) (stream : List Nat) : Recv :=
   if size = 0 then ⟨0, .err⟩
-  else if k.msgSize.isSome ∧ k.msgSize ≠ some size then ⟨0, .err⟩
+  else if k.msgSize.isSome ∧ k.msgSize ≠ some size then ⟨min size maxPayloadSize, .err⟩
   else if size > maxPayloadSize then ⟨0, .err⟩
   else ⟨size, decode k (stream.take size)⟩
 
